@@ -49,7 +49,13 @@ class Contract:
 
     @property
     def qualname(self):
-        return self.target.split(":")[1] if ":" in self.target else self.target
+        q = self.target.split(":")[1] if ":" in self.target else self.target
+        return q.split("#")[0]
+
+    @property
+    def tag(self):
+        """'module:Class.f#view' is a second contract of the same function, verified on its own and never used at call sites"""
+        return self.target.split("#")[1] if "#" in self.target else None
 
 
 class Macro:
@@ -156,13 +162,13 @@ class Registry:
     def method_contract(self, cname, mname):
         for c in self.class_chain(cname):
             for key, con in self.contracts.items():
-                if con.qualname == "%s.%s" % (c, mname):
+                if con.qualname == "%s.%s" % (c, mname) and con.tag is None:
                     return con
         return None
 
     def function_contract(self, name):
         for key, con in self.contracts.items():
-            if con.qualname == name:
+            if con.qualname == name and con.tag is None:
                 return con
         return None
 
